@@ -58,9 +58,16 @@ WStep(i, k) ==
         /\ served' = [served EXCEPT ![i] = @ + 1] /\ UNCHANGED calls
   /\ UNCHANGED <<lists, agent, cur, seen>>
 
+\* the upload of worker k of request i fails for good (the proxy hangs up on every attempt): the worker ends, the
+\* request stays forwarded-once - being listed again later must not forward it again
+WUploadFails(i, k) ==
+  /\ k \in 1..Len(w[i]) /\ w[i][k] = "upload"
+  /\ w' = [w EXCEPT ![i][k] = "failed"]
+  /\ UNCHANGED <<lists, agent, cur, seen, calls, served>>
+
 Next == \/ \E b \in Batches : EnvList(b)
         \/ DedupStep
-        \/ \E i \in IdPool : \E k \in 1..Len(w[i]) : WStep(i, k)
+        \/ \E i \in IdPool : \E k \in 1..Len(w[i]) : WStep(i, k) \/ WUploadFails(i, k)
 
 Spec == Init /\ [][Next]_vars /\ WF_vars(DedupStep) /\ \A i \in IdPool : \A k \in 1..(MaxLists * MaxBatch) : WF_vars(WStep(i, k))
 
@@ -68,5 +75,7 @@ AtMostOnce == \A i \in IdPool : calls[i] <= 1
 OneWorker == \A i \in IdPool : Len(w[i]) <= 1
 \* exactly once: whatever was listed is eventually forwarded exactly once and served
 Listed(i) == Len(w[i]) > 0
-ExactlyOnce == \A i \in IdPool : [](Listed(i) => <>(calls[i] = 1 /\ served[i] = 1))
+UploadFailed(i) == \E k \in 1..Len(w[i]) : w[i][k] = "failed"
+\* exactly once when the proxy serves the request without error (an upload the proxy refuses for good is an error)
+ExactlyOnce == \A i \in IdPool : [](Listed(i) => <>(calls[i] = 1 /\ (served[i] = 1 \/ UploadFailed(i))))
 =============================================================================
